@@ -930,6 +930,204 @@ def check_C18(tier, seed, replay):
     return res
 
 
-CHECKS = {"C18": check_C18, "C11": check_C11, "C01": check_C01, "C02": check_C02, "C04": check_C04, "C05": check_C05, "C06": check_C06,
+
+# ---------------------------------------------------------------------------------------------- C15
+def cli_bin():
+    import subprocess
+    e = vlib.cargo_env()
+    e["CARGO_TARGET_DIR"] = os.path.join(vlib.WORK, "target_cli")
+    p_ = subprocess.run(["cargo", "build", "--offline", "-p", "peginator-cli", "--manifest-path",
+                         os.path.join(vlib.REPO, "Cargo.toml")], env=e, stdout=subprocess.PIPE, stderr=subprocess.PIPE, text=True)
+    if p_.returncode != 0:
+        raise ToolError("building peginator-cli failed:\n%s" % p_.stderr[-3000:])
+    return os.path.join(vlib.WORK, "target_cli", "debug", "peginator-cli")
+
+
+def run_door(cmd, timeout=20):
+    """-> dict(status: 'exit'|'signal'|'timeout', code, out, err)"""
+    import subprocess
+    env = dict(os.environ)
+    env["RUST_BACKTRACE"] = "0"
+    try:
+        p_ = subprocess.run(cmd, stdout=subprocess.PIPE, stderr=subprocess.PIPE, timeout=timeout, env=env)
+    except subprocess.TimeoutExpired:
+        return {"status": "timeout", "code": None, "out": "", "err": ""}
+    out = p_.stdout.decode("utf-8", "replace")
+    err = p_.stderr.decode("utf-8", "replace")
+    if p_.returncode < 0:
+        return {"status": "signal", "code": -p_.returncode, "out": out[:300], "err": err[:300]}
+    return {"status": "exit", "code": p_.returncode, "out": out, "err": err[:400]}
+
+
+def door_failure(r):
+    """did the process fail to answer? -> description or None"""
+    if r["status"] == "timeout":
+        return "hangs (no answer within the time limit)"
+    if r["status"] == "signal":
+        return "is killed by signal %d (stack overflow / abort)" % r["code"]
+    if r["code"] == 101 and "panicked" in r["err"]:
+        return "panics: %s" % " ".join(r["err"].strip().split("\n")[:2])[:200]
+    return None
+
+
+def deep_texts():
+    out = []
+    for n in (50, 300, 1500, 6000):
+        out.append(("nested_parens_%d" % n, "@export\nS = " + "(" * n + "'a'" + ")" * n + ";\n"))
+        out.append(("nested_optionals_%d" % n, "@export\nS = " + "[" * n + "'a'" + "]" * n + ";\n"))
+        out.append(("nested_lookaheads_%d" % n, "@export\nS = " + "!" * n + "'a';\n"))
+        out.append(("long_sequence_%d" % n, "@export\nS = " + "'a' " * n + ";\n"))
+        out.append(("long_choice_%d" % n, "@export\nS = " + " | ".join(["'a'"] * n) + ";\n"))
+        out.append(("many_rules_%d" % n, "@export\nS = R0;\n" + "".join("R%d = 'a';\n" % i for i in range(n))))
+    return out
+
+
+def check_C15(tier, seed, replay):
+    import random
+    import subprocess
+    from concurrent.futures import ThreadPoolExecutor
+    import peg
+    import families
+    res = Result()
+    gs = families.family("bad", tier, seed)
+    d = vlib.famdir("bad", tier)
+    cdir = os.path.join(d, "corpus")
+    os.makedirs(cdir, exist_ok=True)
+    json.dump([peg.grammar_json(g) for g in gs], open(os.path.join(cdir, "corpus.json"), "w"))
+    t = tlc_simple("bad", "CompileFront.tla", "CompileFront.cfg", tier, env={"CORPUS": os.path.join(cdir, "corpus.json")})
+    if t["rc"] != 0:
+        raise ToolError("CompileFront: the specification's verdict disagrees with the corpus generator:\n%s" % (t["violation"] or "")[:2000])
+    verdict = {o["g"]: o for o in t["prints"]}
+    front = tools_bin("front")
+    cli = cli_bin()
+    cases = []   # (name, text, derives, expect, answer_only)
+    for g in gs:
+        cases.append((g.id, g.meta["shape"], peg.grammar_text(g), g.meta.get("derives_list"), verdict[g.id]["verdict"],
+                      bool(g.meta.get("answer_only"))))
+    # totality on arbitrary strings: mutated valid grammars, truncations, deep nestings
+    rnd = random.Random(seed * 131 + 15)
+    seeds_txt = [open(os.path.join(vlib.REPO, "grammar.ebnf")).read()]
+    for root, dn, fn in os.walk(os.path.join(vlib.REPO, "test", "src")):
+        for f_ in sorted(fn):
+            if f_.endswith("ebnf"):
+                seeds_txt.append(open(os.path.join(root, f_)).read())
+    seeds_txt += [peg.grammar_text(g) for g in gs[::7]]
+    nmut = 150 if tier == "quick" else 4000
+    junk = ["(", ")", "[", "]", "{", "}", "!", "&", "|", ";", "=", ":", "@", "*", ">", "'", '"', "\\", "\\u{", "..", "$",
+            "i'", "é", "\U0001F600", "\x00", "@char", "@extern(", "@check(", "+", " ", "\n", "#"]
+    robust = []
+    for i in range(nmut):
+        txt = rnd.choice(seeds_txt)
+        k = rnd.random()
+        if k < 0.3:
+            cut = rnd.randint(0, len(txt))
+            m = txt[:cut]
+        else:
+            cs = list(txt)
+            for _ in range(rnd.randint(1, 4)):
+                pos = rnd.randint(0, len(cs))
+                op = rnd.random()
+                if op < 0.4 and cs:
+                    del cs[min(pos, len(cs) - 1)]
+                elif op < 0.8:
+                    cs.insert(pos, rnd.choice(junk))
+                elif cs:
+                    q = min(pos, len(cs) - 1)
+                    cs[q] = rnd.choice(junk)
+            m = "".join(cs)
+        robust.append(("mutated_%04d" % i, m))
+    robust += deep_texts() if tier != "quick" else [x for x in deep_texts() if not x[0].endswith("6000")]
+    if replay:
+        rp = json.load(open(replay))
+        cases = [c for c in cases if c[1] == rp.get("name")]
+        robust = [r for r in robust if r[0] == rp.get("name")]
+    tdir = os.path.join(d, "texts")
+    os.makedirs(tdir, exist_ok=True)
+
+    def run_case(item):
+        gid, name, text, derives, expect, answer_only = item
+        pth = os.path.join(tdir, gid + ".ebnf")
+        with open(pth, "w") as f:
+            f.write(text)
+        dv = "-" if derives is None else ",".join(derives)
+        out = {}
+        out["lib"] = run_door([front, "lib", pth, dv])
+        dest = os.path.join(tdir, gid + ".dest.rs")
+        if os.path.exists(dest):
+            os.remove(dest)
+        out["compile"] = run_door([front, "compile", pth, dv, dest])
+        cmd = [cli]
+        for x in (derives or []):
+            cmd += ["-d", x]
+        out["cli"] = run_door(cmd + [pth])
+        return out
+
+    def run_robust(item):
+        name, text = item
+        pth = os.path.join(tdir, name + ".ebnf")
+        with open(pth, "w", encoding="utf-8", errors="surrogatepass") as f:
+            f.write(text)
+        return {"lib": run_door([front, "lib", pth, "-"]), "cli": run_door([cli, pth])}
+
+    with ThreadPoolExecutor(max_workers=vlib.NCPU) as ex:
+        outs = list(ex.map(run_case, cases))
+        routs = list(ex.map(run_robust, robust))
+    nontriv = 0
+    for (gid, name, text, derives, expect, answer_only), o in zip(cases, outs):
+        if expect == "error":
+            nontriv += 1
+        for door in ("lib", "compile", "cli"):
+            if door == "cli" and derives == []:
+                continue        # the command line cannot express the empty derive set
+            r = o[door]
+            extra = {"name": name, "door": door, "grammar": text, "expected": expect, "observed": r}
+            fail = door_failure(r)
+            if fail:
+                res.add(Violation("C15", "Answers", "%s door %s on grammar %s" % (door, fail, name), None,
+                                  dict(extra, site="%s:%s" % (door, name.split("_")[0] + "_" + "_".join(name.split("_")[1:3])))))
+                continue
+            if door == "lib":
+                got = "code" if r["out"].startswith("code") else "error" if r["out"].startswith("error") else "?"
+            elif door == "compile":
+                got = "code" if r["out"].startswith("ok") else "error" if r["out"].startswith("err") else "?"
+            else:
+                got = "code" if r["code"] == 0 else "error"
+            if got == "?":
+                raise ToolError("front tool (%s, %s) printed %r / %r" % (door, name, r, text[:300]))
+            if answer_only:
+                continue
+            if got != expect:
+                if door == "cli" and expect == "error" and r["code"] == 0:
+                    what = "peginator-cli exits with status 0 although the grammar is rejected (the failure is invisible to the caller)"
+                    site = "cli-exit-status"
+                else:
+                    what = "%s door answers %s for grammar %s, the documented restrictions say %s (%s)" % (
+                        door, got, name, expect, verdict[gid]["violated"])
+                    site = "%s:%s" % (door, name)
+                res.add(Violation("C15", "Verdict", what, None, dict(extra, site=site)))
+    for (name, text), o in zip(robust, routs):
+        for door in ("lib", "cli"):
+            fail = door_failure(o[door])
+            if fail:
+                kind = name.rsplit("_", 1)[0] if not name.startswith("mutated") else "mutated"
+                res.add(Violation("C15", "Answers", "%s door %s on text %s" % (door, fail, name), None,
+                                  {"name": name, "door": door, "grammar": text[:2000], "observed": o[door],
+                                   "site": "%s:%s" % (door, kind if kind != "mutated" else name)}))
+    res.coverage = {
+        "states": t["distinct"], "transitions": max(t["states"], 1), "traces_validated_against_impl": len(cases) * 3 + len(robust) * 2,
+        "evaluations": len(cases) * 3 + len(robust) * 2, "distinct_nontrivial": nontriv,
+        "rule": "per documented restriction: violating grammars in varied contexts and nearest valid neighbours, include "
+                "graphs on three rules, identifier spellings, derive sets (verdict by CompileFront.tla) through the "
+                "library, Compile::run and peginator-cli, each case in its own process; plus seeded mutations / truncations "
+                "of valid grammars and deep nestings (totality only); non-trivial = grammar the specification rejects",
+        "exhaustive": False,
+        "samples": [{"grammar": c[1], "expected": c[4], "lib": o["lib"]["out"][:80], "cli_exit": o["cli"]["code"]}
+                    for c, o in list(zip(cases, outs))[3::max(1, len(cases) // 3)][:3]],
+    }
+    res.assumptions = ["8 MB default main-thread stack, 20 s per process"]
+    return res
+
+
+CHECKS = {"C15": check_C15, "C18": check_C18, "C11": check_C11, "C01": check_C01, "C02": check_C02, "C04": check_C04, "C05": check_C05, "C06": check_C06,
           "C07": check_C07, "C08": check_C08, "C09": check_C09, "C10": check_C10, "C13": check_C13,
           "C14": check_C14, "C19": check_C19}
